@@ -711,6 +711,70 @@ func RuleK19(r *Report, c *Codec) {
 	}
 }
 
+// K20 one destination per message
+func RuleK20(r *Report, c *Codec) {
+	r.Rule("K20", "an entry point that decodes several messages (an array of replies) decodes each into a value created for that message: no two field walks of one call share their destination (a field the decoder leaves untouched - a nil-tolerant pointer whose bytes are zero - would otherwise keep the previous message's value)", 1)
+	pk := c.P.SSAPkg(codecRel)
+	walkerFn := c.U.Fn
+	n := 0
+	for _, m := range pk.Members {
+		fn, ok := m.(*ssa.Function)
+		if !ok || fn.Object() == nil || !fn.Object().Exported() || fn.Blocks == nil {
+			continue
+		}
+		if !reachesInstr(fn, pk, func(in ssa.Instruction) bool {
+			ci, ok := in.(ssa.CallInstruction)
+			return ok && ci.Common().StaticCallee() == walkerFn
+		}, map[*ssa.Function]bool{}) {
+			continue
+		}
+		w := NewWalker(c.P)
+		w.LoopFuel = 3
+		w.Inline = inlineHelpers([]*ssa.Package{pk}, func(f *ssa.Function) bool {
+			return f == walkerFn || (f.Object() != nil && f.Object().Exported() && f != fn)
+		})
+		bad := ""
+		multi := 0
+		for _, pa := range w.Walk(fn, symbolicArgs(fn), nil) {
+			// reflect.New is a pure call to the walker: two evaluations render alike; what tells a value made per
+			// message from one made once is whether the SAME evaluation (term object) reaches two field walks
+			seen := map[*Term]bool{}
+			k := 0
+			for _, e := range pa.Events {
+				if e.Kind != "call" || len(e.Args) < 2 {
+					continue
+				}
+				ci, ok := e.Instr.(ssa.CallInstruction)
+				if !ok || ci.Common().StaticCallee() != walkerFn {
+					continue
+				}
+				k++
+				var dst *Term
+				for _, a := range e.Args {
+					if a != nil && a.Typ != nil && typeName(a.Typ) == "reflect.Value" {
+						dst = a
+					}
+				}
+				if dst == nil {
+					continue
+				}
+				if seen[dst] {
+					bad = "two messages of one call are decoded into the same value " + cut(dst.String(), 60)
+				}
+				seen[dst] = true
+			}
+			if k >= 2 {
+				multi++
+			}
+		}
+		if multi > 0 {
+			n++
+			r.Check(bad == "", "K20", "codec."+fn.Name(), c.P.Pos(fn.Pos()), fmt.Sprintf("%d paths decoding several messages", multi), bad)
+		}
+	}
+	_ = n
+}
+
 // K7 symmetric kind sets
 func RuleK7(r *Report, c *Codec) {
 	r.Rule("K7", "the built-in kinds handled by the encoder are exactly those handled by the decoder and those of the protocol", 1)
